@@ -11,7 +11,7 @@ Int(i)      == [t |-> "i", v |-> i]
 Bool(b)     == [t |-> "b", v |-> b]
 OpenL(xs)   == [t |-> "l", c |-> FALSE, v |-> xs]
 ClosedL(xs) == [t |-> "l", c |-> TRUE, v |-> xs]
-Dict(ps)    == [t |-> "d", v |-> ps]             \* ps : Seq(<<name, value>>), insertion order
+Dict(ps)    == [t |-> "d", v |-> ps, pi |-> <<>>] \* ps : Seq(<<name, value>>), insertion order; pi : parse information (C12)
 Tagged(r, x) == [t |-> "g", r |-> r, v |-> x]    \* result of the "tagging" semantic action of C06
 IsOpen(x)   == x.t = "l" /\ ~x.c
 IsList(x)   == x.t = "l"
